@@ -30,7 +30,7 @@ structure Ctx (α : Type) where
   sp : α
   hy : α
   phA : α
-  /-- `r + 1` on runes: the candidate after `r` for the placeholder of Editor.WrapOpts (the
+  /-- `r + 1` on runes: the candidate after `r` for the placeholder of Editor.WrapOpts / JustifyOpts (the
   first candidate is `phA`); only looked at when the line separator contains `phA` -/
   phNext : α → α := id
   nl : α
@@ -157,15 +157,15 @@ def notSpaceHead (gc : List α) : Bool :=
   | [] => false
   | c :: _ => !cx.isSpace c
 
-/-- the loop `for strings.ContainsRune(sep, c) { c++ }` of Editor.WrapOpts with at most `n` tests;
+/-- the loop `for strings.ContainsRune(sep, c) { c++ }` of affixPlaceholder with at most `n` tests;
 after `n` tests the next candidate is taken untested -/
 def phSearch (sep : List α) : Nat → α → α
   | 0, c => c
   | n + 1, c => if c ∈ sep then phSearch sep n (cx.phNext c) else c
 
-/-- the stand-in Editor.WrapOpts pads a paragraph with in place of the paragraph separator's
-affixes: the first of `phA, phNext phA, …` that does not occur in the line separator `sep` (which
-Wrap turns into spaces).  `|sep|` tests suffice: of `|sep| + 1` pairwise different candidates one
+/-- affixPlaceholder: the stand-in Editor.WrapOpts and JustifyOpts pad a paragraph with in place of
+the paragraph separator's affixes: the first of `phA, phNext phA, …` that does not occur in the line separator `sep` (which
+Wrap turns into spaces and Justify splits on).  `|sep|` tests suffice: of `|sep| + 1` pairwise different candidates one
 is not among the `|sep|` atoms of `sep` (`Ctx.PhFresh`; a theorem for instance A) -/
 def Ctx.placeholder (sep : List α) : α := phSearch cx sep sep.length cx.phA
 
